@@ -43,7 +43,7 @@ m = {
     }],
     "checks": checks,
     "not_applicable": [{"property_id": p, "reason": r} for p, r in NOT_APPLICABLE.items() if p not in PROPS],
-    "notes": "See DESIGN.md. Known findings: known_findings.json. Seeded breakages used to test the checks: seeded/.",
+    "notes": "See DESIGN.md (section 5b: what is proved per property; 6: defects found, five repaired by fix: commits in /repo, the rest in known_findings.json; 7: trusted base; 10: 120 seeded breakages in seeded/, all caught; 11: 30 behaviour-preserving refactors in benign/, all quiet). Exit codes of ./check: 0 held, 1 violation (VIOLATION line + replay file under replays/), 2 infrastructure (the tree does not compile). Checks may run in parallel (builds are serialised by file locks). tools/coverage.sh measures what the harness reaches in /repo/src (notes/coverage.txt: 98.7% of lines; the rest is unimplemented!() arms and one unreachable generic).",
 }
 json.dump(m, open("MANIFEST.json", "w"), indent=1)
 print("claimed:", [c["property_id"] for c in checks])
